@@ -195,6 +195,9 @@ func load(T types.Type, addr *value) value {
 		}
 		return a
 	default:
+		if RaceOn {
+			raceRead(addr)
+		}
 		return *addr
 	}
 }
@@ -215,6 +218,9 @@ func store(T types.Type, addr *value, v value) {
 			store(T.Elem(), &lhs[i], rhs[i])
 		}
 	default:
+		if RaceOn {
+			raceWrite(addr)
+		}
 		*addr = v
 	}
 }
